@@ -45,7 +45,37 @@ public class Sink extends Base implements Runnable {
     /* block comment */
     return;
   }
+  // constructs that are no entity kinds today: a scanner that starts to report one of them must make it queryable
+  <T extends Comparable<T>> java.util.List<T> more(java.util.List<T> xs, String... rest) throws Exception {
+    java.util.function.Function<String, Integer> len = String::length;
+    Runnable r = this::run;
+    java.util.function.Supplier<Sink> mk = Sink::new;
+    xs.forEach(System.out::println);
+    Runnable lam = () -> { bar(); };
+    java.util.function.BiFunction<Integer, Integer, Integer> add = (p, q) -> p + q;
+    for (T x : xs) { use(x); }
+    try { risky(); } catch (RuntimeException | Error e) { throw e; } finally { bar(); }
+    try (java.io.StringReader rd = new java.io.StringReader("s")) { rd.read(); }
+    switch (rest.length) { case 0: bar(); break; default: bar(); }
+    synchronized (this) { f++; }
+    int[] arr = new int[] { 1, 2 }; int first = arr[0]; arr[1] = -first;
+    Object o = (Object) xs; boolean is = o instanceof Sink; int t = is ? 1 : 2;
+    String tb = """
+        text block""";
+    label: for (;;) { break label; }
+    Object anon = new Object() { public String toString() { return "a"; } };
+    this.f = super.hashCode(); f += 2; f++; --f;
+    char ch = 'c'; long l = 1L; double d = 1.5e3; Class<?> k = Sink.class;
+    return xs;
+  }
+  @SuppressWarnings({"a", "b"}) @Deprecated(since = "1" + "2") static final int K = 3;
+  interface Inner { int v(); default int w() { return 1; } }
+  enum Color { RED, GREEN; int code() { return ordinal(); } }
+  record Pair(int a, int b) { }
+  static { K2 = 4; }
+  static int K2;
 }
+@interface Marker { int value() default 1 + 1; }
 '''
 
 
